@@ -175,7 +175,8 @@ var rules = []*rule{
 		return f.declHas["iota-fwd-ref"]
 	}},
 	{"arraylen-forward-const-reference-rejected", divs("rejected", "crash"), func(f *feat) bool {
-		return f.kind == "arraydecl" && f.goOK && f.declHas["fwd-ref"] && f.has["binop"]
+		// [c + 1]T and [int(c)]T are accepted: the conversion to another type than int is what fails
+		return f.kind == "arraydecl" && f.goOK && f.declHas["fwd-ref"] && f.has["conv"]
 	}},
 	{"shift-of-untyped-float-stays-float", divs("rejected", "type", "value", "crash", "accepted"), func(f *feat) bool {
 		return (f.has["floatshift"] || f.declHas["floatshift"]) && (f.goOK || f.goClass == "overflow")
